@@ -29,4 +29,7 @@ impl Rng {
     pub fn pick<'a, T>(&mut self, xs: &'a [T]) -> &'a T {
         &xs[self.below(xs.len())]
     }
+    pub fn pick_s(&mut self, xs: &[&'static str]) -> &'static str {
+        xs[self.below(xs.len())]
+    }
 }
